@@ -162,6 +162,7 @@ def build_harness(name, variant="real", extra=()):
 def run_harness(binary, input_text, timeout=300, np=None, env=None, args=()):
     e = dict(MPI_ENV)
     e["ASAN_OPTIONS"] = "detect_leaks=0"
+    e["UBSAN_OPTIONS"] = "print_stacktrace=1"
     e.setdefault("OMP_NUM_THREADS", "1")
     if env:
         e.update(env)
@@ -438,6 +439,12 @@ class Check:
             self.prop, self.tier, self.seed, len(self.discharged), len(self.obligations), self.evaluations,
             len(self.distinct), ev["violations"], len(self.known_hits), time.time() - self.t0))
         return rc
+
+
+def sanitizer_digest(err, limit=70):
+    """the informative lines of a sanitizer report (error line, stack frames, summary)"""
+    keep = [l for l in err.split("\n") if re.search(r'ERROR: |runtime error|^\s*#\d+ |SUMMARY|is located|allocated by|freed by', l)]
+    return "\n".join(l[:260] for l in keep[:limit])
 
 
 def hexf(s):
